@@ -269,7 +269,8 @@ def main(modname):
         os.makedirs(os.path.dirname(epath), exist_ok=True)
     if not args.only:
         json.dump(ev, open(epath, 'w'), indent=1)
-        validate_evidence(epath)
+        if not validate_evidence(epath) and not unknown:
+            sys.exit(2)        # (with violations found, the VIOLATION verdict takes precedence over thin evidence)
     print('%s tier=%s seed=%d cases=%d/%d evaluations=%d distinct_nontrivial=%d%s violations=%d known=%d wall=%.1fs%s'
           % (pid, args.tier, args.seed, len(results), n_cases, evals, len(sigs),
              (' states=%d transitions=%d' % (states, trans)) if mod.LEVEL == 'model_checking' else '',
@@ -285,7 +286,8 @@ def validate_evidence(path):
     try:
         r = subprocess.run(['python3-vt', '-c', code, path, SCHEMA], capture_output=True, text=True, timeout=60)
     except (OSError, subprocess.TimeoutExpired):
-        return
+        return True
     if r.returncode != 0:
-        print('INTERNAL: evidence does not validate: ' + r.stderr[-800:])
-        sys.exit(2)
+        print('INTERNAL: evidence does not validate: ' + r.stderr.strip().splitlines()[-1][:300])
+        return False
+    return True
